@@ -1109,67 +1109,6 @@ theorem Agg.collect_cell1 (g : Agg) (tp : Temporality) (t : Nat) (k : Attr) :
       LastValue.pcollect, Hist.collect, Sum.delta, Sum.cumulative, PSum.delta, PSum.cumulative, LastValue.delta,
       LastValue.cumulative, LastValue.pdelta, LastValue.pcumulative, Hist.delta, Hist.cumulative]
 
-theorem isLast_measure (g : Agg) (a : Attr) (x : Int) : (g.measure a x).isLast = g.isLast := by cases g <;> rfl
-theorem isLast_collect (g : Agg) (tp : Temporality) (t : Nat) : (g.collect tp t).1.isLast = g.isLast := by
-  cases g <;> cases tp <;> rfl
-theorem perKeyOK_measure (g : Agg) (a : Attr) (x : Int) : perKeyOK (g.measure a x) = perKeyOK g := by
-  cases g <;> rfl
-theorem perKeyOK_collect (g : Agg) (tp : Temporality) (t : Nat) : perKeyOK (g.collect tp t).1 = perKeyOK g := by
-  cases g <;> cases tp <;> rfl
-
-theorem perKeyOK_of_cells (g : Agg) (L : Nat) (w : List (Attr × Int)) (pts : List (Attr × PV))
-    (h : g.isLast = false → ∀ p ∈ pts, pvTotal p.2 = sumInts ((((relabel L w).filter fun m => m.1 == p.1)).map fun m => g.c1 m.2)) :
-    perKeyOK g L w pts = true := by
-  simp only [perKeyOK, List.all_eq_true]
-  intro p hp
-  cases g with
-  | sum s => simpa [Agg.c1, under] using h rfl p hp
-  | psum s => simpa [Agg.c1, under] using h rfl p hp
-  | lv s => rfl
-  | plv s => rfl
-  | hist hh => have := h rfl p hp; simp only [Agg.c1, sumInts_const_one] at this; simp [under, this]
-  | expo hh => have := h rfl p hp; simp only [Agg.c1, sumInts_const_one] at this; simp [under, this]
-
-theorem runSteps_perKey (tp : Temporality) (steps : List AStep) (g : Agg) (w : List (Attr × Int))
-    (hp : g.psumDelta tp = false) (hw : g.keys = runKeys g.limit [] w)
-    (hc : ∀ k, g.cell1 k = sumInts (((tl g.limit [] w).filter fun m => m.1 == k).map fun m => g.c1 m.2)) :
-    allZip (perKeyOK g g.limit) (windows (g.resets tp) w steps) (g.runSteps tp steps).2 = true := by
-  induction steps generalizing g w with
-  | nil => rfl
-  | cons st r ih =>
-    cases st with
-    | meas a x =>
-      simp only [Agg.runSteps, windows]
-      have := ih (g.measure a x) (w ++ [(a, x)]) (by rw [psumDelta_measure]; exact hp)
-        (by rw [Agg.measure_keys, Agg.measure_limit, hw, runKeys_append]; rfl)
-        (by intro k
-            rw [Agg.measure_cell1, Agg.measure_limit, (c_measure g a x).1, hc k, tl_append, ← hw]
-            simp only [tl, List.filter_append, List.map_append, sumInts_append]
-            by_cases hk : limKey g.limit g.keys a = k
-            · simp [hk]
-            · simp [hk])
-      rw [Agg.measure_resets, Agg.measure_limit, perKeyOK_measure] at this
-      exact this
-    | col t =>
-      simp only [Agg.runSteps, windows, allZip, Bool.and_eq_true]
-      refine ⟨?_, ?_⟩
-      · apply perKeyOK_of_cells
-        intro hl p hpm
-        have hnd : g.keys.Nodup := by rw [hw, runKeys_nil_eq_refKeys]; exact refKeys_nodup _ _
-        rw [Agg.collect_points g tp t hp hl hnd p hpm, hc p.1, tl_eq_relabel]
-      · have := ih (g.collect tp t).1 (if g.resets tp then [] else w) (by rw [psumDelta_collect]; exact hp)
-          (by rw [Agg.collect_state_keys, Agg.collect_limit]
-              by_cases hr : g.resets tp <;> simp [hr, hw, runKeys])
-          (by intro k
-              rw [Agg.collect_cell1, Agg.collect_limit, (c_collect g tp t).1]
-              by_cases hr : g.resets tp <;> simp [hr, hc k, tl])
-        rw [Agg.collect_resets, Agg.collect_limit, perKeyOK_collect] at this
-        exact this
-
-theorem cell1_of_empty (g : Agg) (h : g.keys = []) (k : Attr) : g.cell1 k = 0 := by
-  cases g <;> simp [Agg.keys, AMap.keys] at h <;> simp [Agg.cell1, cellTotal, AMap.get?, h]
-
-
 theorem collectStreams_states (tp : Temporality) (t : Nat) (ss : List StreamSt) :
     (collectStreams tp t ss).1 = ss.map fun s => (s.collect tp t).1 := by
   induction ss with
@@ -1179,5 +1118,522 @@ theorem collectStreams_states (tp : Temporality) (t : Nat) (ss : List StreamSt) 
     cases hs : s.agg with
     | none => simp [StreamSt.collect, hs, ih]
     | some g => simp only [StreamSt.collect, hs, ih]
+
+
+/-! ## payloads: every cell is the closed-form payload of the measurements stored under its key -/
+
+theorem get?_upd {V : Type} (m : AMap V) (t k : Attr) (f : Option V → V) :
+    (m.upd t f).get? k = if t = k then some (f (m.get? k)) else m.get? k := by
+  induction m with
+  | nil => by_cases h : t = k <;> simp [AMap.upd, AMap.get?, h]
+  | cons kv m ih =>
+    obtain ⟨k', w⟩ := kv
+    simp only [AMap.upd]
+    by_cases hk : k' = t
+    · subst hk
+      by_cases hkk : k' = k <;> simp [AMap.get?, hkk]
+    · simp only [hk, if_false]
+      by_cases hkk : k' = k
+      · have : ¬ t = k := fun e => hk (hkk.trans e.symm)
+        simp [AMap.get?, hkk, this]
+      · simp only [AMap.get?, hkk, if_false]; exact ih
+
+theorem get?_isSome_of_mem_keys {V : Type} (m : AMap V) (k : Attr) (h : k ∈ m.keys) : ∃ v, m.get? k = some v := by
+  have : m.contains k = true := by rw [contains_keys]; simpa using h
+  simp only [AMap.contains, Option.isSome_iff_exists] at this
+  exact this
+
+/-- a map with distinct keys, mapped point-wise, is its key list mapped through `get?` -/
+theorem map_eq_keys_map {V W : Type} (m : AMap V) (h : m.keys.Nodup) (f : V → W) (d : W) :
+    m.map (fun kv => (kv.1, f kv.2)) = m.keys.map fun k => (k, ((m.get? k).map f).getD d) := by
+  simp only [AMap.keys, List.map_map]
+  apply List.map_congr_left
+  intro kv hkv
+  obtain ⟨k, v⟩ := kv
+  simp [Function.comp, get?_of_mem_nodup m h k v hkv]
+
+/-- the payload of the cell stored under `k` (cumulative form for precomputed sums) -/
+def Agg.payloadAt : Agg → Attr → Option PV
+  | .sum s, k => (s.values.get? k).map fun v => PV.num v.n
+  | .psum s, k => (s.values.get? k).map fun v => PV.num v.n
+  | .lv s, k | .plv s, k => (s.values.get? k).map PV.num
+  | .hist h, k | .expo h, k => (h.values.get? k).map (histPV h.noSum)
+
+/-- one more measurement `x` into a cell whose payload is `pv` -/
+def stepPV (g : Agg) (x : Int) (pv : PV) : PV :=
+  match g, pv with
+  | .sum _, .num n | .psum _, .num n => .num (n + x)
+  | .lv _, _ | .plv _, _ => .num x
+  | .hist h, .hist c s cs | .expo h, .hist c s cs =>
+    .hist (c + 1) (if h.noSum then 0 else s + x) (cs.modify (searchIdx h.bounds x) (· + 1))
+  | _, pv => pv
+
+theorem bucketCounts_nil (b : List Int) : bucketCounts b [] = List.replicate (b.length + 1) 0 := by
+  simp only [bucketCounts, List.filter_nil, List.length_nil]
+  apply List.ext_getElem?
+  intro i
+  simp only [List.getElem?_map, List.getElem?_range, List.getElem?_replicate]
+  by_cases h : i < b.length + 1 <;> simp [h]
+
+theorem bucketCounts_snoc (b : List Int) (xs : List Int) (x : Int) :
+    (bucketCounts b xs).modify (searchIdx b x) (· + 1) = bucketCounts b (xs ++ [x]) := by
+  apply List.ext_getElem?
+  intro i
+  rw [List.getElem?_modify]
+  simp only [bucketCounts, List.getElem?_map, List.filter_append, List.length_append]
+  by_cases h : i < b.length + 1
+  · simp only [List.getElem?_range h, Option.map_some]
+    by_cases hi : searchIdx b x = i
+    · simp [hi]
+    · have : (searchIdx b x == i) = false := by simpa using hi
+      simp [hi, this]
+  · have hn : (List.range (b.length + 1))[i]? = none := by simp; omega
+    simp [hn]
+
+theorem payload_snoc (g : Agg) (xs : List Int) (x : Int) : stepPV g x (payload g xs) = payload g (xs ++ [x]) := by
+  cases g with
+  | sum s => simp [stepPV, payload]
+  | psum s => simp [stepPV, payload]
+  | lv s => simp [stepPV, payload]
+  | plv s => simp [stepPV, payload]
+  | hist h =>
+    simp only [stepPV, payload, bucketCounts_snoc, List.length_append, List.length_singleton, sumInts_append]
+    by_cases hn : h.noSum <;> simp [hn]
+  | expo h =>
+    simp only [stepPV, payload, bucketCounts_snoc, List.length_append, List.length_singleton, sumInts_append]
+    by_cases hn : h.noSum <;> simp [hn]
+
+theorem histPV_histCell (h : Hist) (x : Int) (o : Option HistVal) :
+    histPV h.noSum (histCell (h.bounds.length + 1) h.noSum (searchIdx h.bounds x) x o) =
+    stepPV (.hist h) x ((o.map (histPV h.noSum)).getD (payload (.hist h) [])) := by
+  cases o with
+  | none =>
+    simp only [histCell, histPV, Option.getD_none, Option.map_none, payload, stepPV, bucketCounts_nil,
+      List.length_nil, sumInts_nil]
+    by_cases hn : h.noSum <;> simp [hn]
+  | some v =>
+    simp only [histCell, histPV, Option.getD_some, Option.map_some, stepPV]
+    by_cases hn : h.noSum <;> simp [hn]
+
+theorem stepPV_expo (h : Hist) (x : Int) (pv : PV) : stepPV (.expo h) x pv = stepPV (.hist h) x pv := by
+  cases pv <;> rfl
+
+theorem Agg.measure_payloadAt (g : Agg) (a : Attr) (x : Int) (k : Attr) :
+    (g.measure a x).payloadAt k =
+      if limKey g.limit g.keys a = k then some (stepPV g x ((g.payloadAt k).getD (payload g [])))
+      else g.payloadAt k := by
+  cases g with
+  | sum s =>
+    simp only [Agg.measure, Agg.payloadAt, Agg.limit, Agg.keys, Sum.measure, ← limitAttr_eq_limKey, get?_upd]
+    split
+    · cases s.values.get? k <;> simp [sumCell, stepPV, payload]
+    · rfl
+  | psum s =>
+    simp only [Agg.measure, Agg.payloadAt, Agg.limit, Agg.keys, PSum.measure, ← limitAttr_eq_limKey, get?_upd]
+    split
+    · cases s.values.get? k <;> simp [sumCell, stepPV, payload]
+    · rfl
+  | lv s =>
+    simp only [Agg.measure, Agg.payloadAt, Agg.limit, Agg.keys, LastValue.measure, ← limitAttr_eq_limKey, get?_upd]
+    split <;> simp [stepPV]
+  | plv s =>
+    simp only [Agg.measure, Agg.payloadAt, Agg.limit, Agg.keys, LastValue.measure, ← limitAttr_eq_limKey, get?_upd]
+    split <;> simp [stepPV]
+  | hist h =>
+    simp only [Agg.measure, Agg.payloadAt, Agg.limit, Agg.keys, Hist.measure, ← limitAttr_eq_limKey, get?_upd]
+    split
+    · simp only [Option.map_some, histPV_histCell]
+    · rfl
+  | expo h =>
+    simp only [Agg.measure, Agg.payloadAt, Agg.limit, Agg.keys, Hist.measure, ← limitAttr_eq_limKey, get?_upd]
+    split
+    · simp only [Option.map_some, histPV_histCell, stepPV_expo]; rfl
+    · rfl
+
+
+theorem payload_measure (g : Agg) (a : Attr) (x : Int) : payload (g.measure a x) = payload g := by
+  cases g <;> rfl
+theorem payload_collect (g : Agg) (tp : Temporality) (t : Nat) : payload (g.collect tp t).1 = payload g := by
+  cases g <;> cases tp <;> rfl
+theorem stepPV_measure (g : Agg) (a : Attr) (x : Int) : stepPV (g.measure a x) = stepPV g := by
+  funext y pv; cases g <;> cases pv <;> rfl
+theorem refPoints_congr (g g' : Agg) (h : payload g = payload g') : refPoints g = refPoints g' := by
+  funext L arr; simp only [refPoints, h]
+
+/-- `none` for no measurement, else the closed-form payload -/
+def optPayload (g : Agg) (xs : List Int) : Option PV := if xs.isEmpty then none else some (payload g xs)
+
+theorem optPayload_snoc (g : Agg) (xs : List Int) (x : Int) :
+    some (stepPV g x ((optPayload g xs).getD (payload g []))) = optPayload g (xs ++ [x]) := by
+  have hne : (xs ++ [x]).isEmpty = false := by simp
+  simp only [optPayload, hne, Bool.false_eq_true, if_false]
+  cases xs with
+  | nil => simp [optPayload, payload_snoc]
+  | cons y ys => simp [optPayload, payload_snoc]
+
+/-- the measurements of `ts` stored under key `k` -/
+def valsAt (ts : List (Attr × Int)) (k : Attr) : List Int := (ts.filter fun m => m.1 == k).map (·.2)
+
+theorem valsAt_snoc (ts : List (Attr × Int)) (t : Attr) (x : Int) (k : Attr) :
+    valsAt (ts ++ [(t, x)]) k = if t = k then valsAt ts k ++ [x] else valsAt ts k := by
+  by_cases h : t = k <;> simp [valsAt, List.filter_append, h]
+
+/-- for every reportable combination, a report is the map, point-wise -/
+theorem Agg.collect_eq (g : Agg) (tp : Temporality) (t : Nat) (h1 : g.psumDelta tp = false)
+    (hnd : g.keys.Nodup) (d : PV) :
+    (g.collect tp t).2 = g.keys.map fun k => (k, (g.payloadAt k).getD d) := by
+  cases g <;> cases tp <;> simp [Agg.psumDelta] at h1 <;>
+    simp only [Agg.keys] at hnd <;>
+    simp only [Agg.collect, Sum.collect, PSum.collect, LastValue.collect, LastValue.pcollect, Hist.collect,
+      Sum.delta, Sum.cumulative, PSum.cumulative, LastValue.delta, LastValue.cumulative, LastValue.pdelta,
+      LastValue.pcumulative, Hist.delta, Hist.cumulative, mkPoints, List.map_map, Function.comp_def, Agg.keys,
+      Agg.payloadAt] <;>
+    first
+      | exact map_eq_keys_map _ hnd (fun v : SumVal => PV.num v.n) d
+      | exact map_eq_keys_map _ hnd PV.num d
+      | exact map_eq_keys_map _ hnd (histPV _) d
+
+theorem Agg.collect_payloadAt (g : Agg) (tp : Temporality) (t : Nat) (k : Attr) :
+    (g.collect tp t).1.payloadAt k = if g.resets tp then none else g.payloadAt k := by
+  cases g <;> cases tp <;>
+    simp [Agg.collect, Agg.payloadAt, Agg.resets, AMap.get?, Sum.collect, PSum.collect, LastValue.collect,
+      LastValue.pcollect, Hist.collect, Sum.delta, Sum.cumulative, PSum.delta, PSum.cumulative, LastValue.delta,
+      LastValue.cumulative, LastValue.pdelta, LastValue.pcumulative, Hist.delta, Hist.cumulative]
+
+/-- the invariant of a run: keys are the closed form, every cell is the payload of what was stored under its key -/
+structure RunInv (g : Agg) (w : List (Attr × Int)) : Prop where
+  keys : g.keys = runKeys g.limit [] w
+  cells : ∀ k, g.payloadAt k = optPayload g (valsAt (tl g.limit [] w) k)
+
+theorem RunInv.measure (g : Agg) (w : List (Attr × Int)) (h : RunInv g w) (a : Attr) (x : Int) :
+    RunInv (g.measure a x) (w ++ [(a, x)]) := by
+  refine ⟨by rw [Agg.measure_keys, Agg.measure_limit, h.keys, runKeys_append]; rfl, ?_⟩
+  intro k
+  rw [Agg.measure_payloadAt, Agg.measure_limit, tl_append, ← h.keys]
+  simp only [tl]
+  rw [valsAt_snoc, h.cells k]
+  have hp : optPayload (g.measure a x) = optPayload g := by
+    funext xs; simp only [optPayload, payload_measure]
+  rw [hp]
+  by_cases hk : limKey g.limit g.keys a = k
+  · simp only [hk, if_true]; exact optPayload_snoc g _ x
+  · simp only [hk, if_false]
+
+theorem RunInv.collect (g : Agg) (w : List (Attr × Int)) (h : RunInv g w) (tp : Temporality) (t : Nat) :
+    RunInv (g.collect tp t).1 (if g.resets tp then [] else w) := by
+  have hp : optPayload (g.collect tp t).1 = optPayload g := by
+    funext xs; simp only [optPayload, payload_collect]
+  refine ⟨?_, ?_⟩
+  · rw [Agg.collect_state_keys, Agg.collect_limit]
+    by_cases hr : g.resets tp <;> simp [hr, h.keys, runKeys]
+  · intro k
+    rw [Agg.collect_payloadAt, Agg.collect_limit, hp]
+    by_cases hr : g.resets tp
+    · simp [hr, tl, valsAt, optPayload]
+    · simp [hr, h.cells k]
+
+theorem RunInv.fresh (g : Agg) (hf : g.keys = []) : RunInv g [] := by
+  refine ⟨by rw [hf]; rfl, ?_⟩
+  intro k
+  cases g <;> simp [Agg.keys, AMap.keys] at hf <;>
+    simp [Agg.payloadAt, hf, AMap.get?, tl, valsAt, optPayload]
+
+/-- under the invariant, a report IS the reference -/
+theorem RunInv.report (g : Agg) (w : List (Attr × Int)) (h : RunInv g w) (tp : Temporality) (t : Nat)
+    (hp : g.psumDelta tp = false) : (g.collect tp t).2 = refPoints g g.limit w := by
+  have hk : g.keys = refKeys g.limit w := by rw [h.keys, runKeys_nil_eq_refKeys]
+  have hnd : g.keys.Nodup := by rw [hk]; exact refKeys_nodup _ _
+  rw [Agg.collect_eq g tp t hp hnd (payload g []), refPoints, ← hk]
+  apply List.map_congr_left
+  intro k hkm
+  have hc := h.cells k
+  rw [tl_eq_relabel] at hc
+  cases g <;> simp only [Agg.keys] at hkm <;>
+    (obtain ⟨v, hv⟩ := get?_isSome_of_mem_keys _ k hkm
+     simp only [Agg.payloadAt, hv, Option.map_some, optPayload] at hc
+     split at hc
+     · simp at hc
+     · simp only [Agg.payloadAt, hv, Option.map_some, Option.getD_some, under, valsAt] at hc ⊢
+       rw [Option.some.inj hc])
+
+theorem runSteps_reference (tp : Temporality) (steps : List AStep) (g : Agg) (w : List (Attr × Int))
+    (hp : g.psumDelta tp = false) (h : RunInv g w) :
+    (g.runSteps tp steps).2 = (windows (g.resets tp) w steps).map (refPoints g g.limit) := by
+  induction steps generalizing g w with
+  | nil => rfl
+  | cons st r ih =>
+    cases st with
+    | meas a x =>
+      simp only [Agg.runSteps, windows]
+      rw [ih (g.measure a x) (w ++ [(a, x)]) (by rw [psumDelta_measure]; exact hp) (h.measure g w a x),
+        Agg.measure_resets, Agg.measure_limit, refPoints_congr _ _ (payload_measure g a x)]
+    | col t =>
+      simp only [Agg.runSteps, windows, List.map_cons]
+      rw [ih (g.collect tp t).1 _ (by rw [psumDelta_collect]; exact hp) (h.collect g w tp t),
+        Agg.collect_resets, Agg.collect_limit, refPoints_congr _ _ (payload_collect g tp t),
+        h.report g w tp t hp]
+
+
+/-! ## grouping by key loses and duplicates nothing (partition) -/
+
+theorem sumInts_map_add {α : Type} (l : List α) (a b : α → Int) :
+    sumInts (l.map fun k => a k + b k) = sumInts (l.map a) + sumInts (l.map b) := by
+  induction l with
+  | nil => rfl
+  | cons x l ih => simp [ih]; omega
+
+theorem sumInts_map_sub {α : Type} (l : List α) (a b : α → Int) :
+    sumInts (l.map fun k => a k - b k) = sumInts (l.map a) - sumInts (l.map b) := by
+  induction l with
+  | nil => rfl
+  | cons x l ih => simp [ih]; omega
+
+theorem sum_ite_nodup (D : List Attr) (h : D.Nodup) (t : Attr) (c : Int) :
+    sumInts (D.map fun k => if t = k then c else 0) = if t ∈ D then c else 0 := by
+  induction D with
+  | nil => rfl
+  | cons d D ih =>
+    rw [List.nodup_cons] at h
+    simp only [List.map_cons, sumInts_cons, ih h.2, List.mem_cons]
+    by_cases htd : t = d
+    · subst htd; simp [h.1]
+    · simp [htd]
+
+theorem valsAt_of_not_mem (ts : List (Attr × Int)) (t : Attr) (h : t ∉ ts.map (·.1)) : valsAt ts t = [] := by
+  simp only [valsAt, List.map_eq_nil_iff, List.filter_eq_nil_iff]
+  intro m hm
+  simp only [beq_iff_eq]
+  intro e
+  exact h (List.mem_map.mpr ⟨m, hm, e⟩)
+
+theorem firstDistinct_snoc (l : List Attr) (t : Attr) :
+    firstDistinct (l ++ [t]) = addDistinct (firstDistinct l) t := by
+  simp [firstDistinct, List.foldl_append]
+
+theorem partition_snoc (f : Int → Int) (ts : List (Attr × Int)) (t : Attr) (x : Int)
+    (ih : sumInts ((firstDistinct (ts.map (·.1))).map fun k => sumInts ((valsAt ts k).map f)) =
+      sumInts (ts.map fun m => f m.2)) :
+    sumInts ((firstDistinct ((ts ++ [(t, x)]).map (·.1))).map fun k => sumInts ((valsAt (ts ++ [(t, x)]) k).map f)) =
+      sumInts ((ts ++ [(t, x)]).map fun m => f m.2) := by
+  have hnd : (firstDistinct (ts.map (·.1))).Nodup := nodup_foldl_addDistinct [] _ List.nodup_nil
+  have hF : ∀ k, sumInts ((valsAt (ts ++ [(t, x)]) k).map f) =
+      sumInts ((valsAt ts k).map f) + (if t = k then f x else 0) := by
+    intro k; rw [valsAt_snoc]; by_cases h : t = k <;> simp [h]
+  simp only [hF, List.map_append, List.map_cons, List.map_nil, firstDistinct_snoc, sumInts_append, sumInts_cons,
+    sumInts_nil]
+  by_cases ht : t ∈ firstDistinct (ts.map (·.1))
+  · rw [addDistinct_mem _ _ ht, sumInts_map_add, ih, sum_ite_nodup _ hnd]
+    simp [ht]
+  · rw [addDistinct_not_mem _ _ ht]
+    have ht' : t ∉ ts.map (·.1) := fun h => ht ((mem_firstDistinct _ _).mpr h)
+    simp only [List.map_append, List.map_cons, List.map_nil, sumInts_append, sumInts_cons, sumInts_nil]
+    rw [sumInts_map_add, ih, sum_ite_nodup _ hnd, valsAt_of_not_mem ts t ht']
+    simp [ht]
+
+theorem partition_rev (f : Int → Int) (l : List (Attr × Int)) :
+    sumInts ((firstDistinct (l.reverse.map (·.1))).map fun k => sumInts ((valsAt l.reverse k).map f)) =
+      sumInts (l.reverse.map fun m => f m.2) := by
+  induction l with
+  | nil => rfl
+  | cons m l ih =>
+    obtain ⟨t, x⟩ := m
+    rw [List.reverse_cons]
+    exact partition_snoc f l.reverse t x ih
+
+/-- Σ over the distinct keys of (Σ over the measurements stored under the key) = Σ over all measurements -/
+theorem partition_sum (f : Int → Int) (ts : List (Attr × Int)) :
+    sumInts ((firstDistinct (ts.map (·.1))).map fun k => sumInts ((valsAt ts k).map f)) =
+      sumInts (ts.map fun m => f m.2) := by
+  have := partition_rev f ts.reverse
+  simpa using this
+
+theorem length_filter_eq_sum {α : Type} (p : α → Bool) (xs : List α) :
+    ((xs.filter p).length : Int) = sumInts (xs.map fun x => if p x then 1 else 0) := by
+  induction xs with
+  | nil => rfl
+  | cons x xs ih =>
+    by_cases h : p x <;> simp [List.filter_cons, h, ih] <;> omega
+
+theorem relabel_values (L : Nat) (w : List (Attr × Int)) (f : Int → Int) :
+    (relabel L w).map (fun m => f m.2) = w.map fun m => f m.2 := by
+  simp [relabel, List.map_map, Function.comp_def]
+
+theorem under_eq_valsAt (L : Nat) (w : List (Attr × Int)) (k : Attr) : under L w k = valsAt (relabel L w) k := rfl
+
+/-- grouping the window by reported key: Σ_k Σ_{under k} f = Σ_window f -/
+theorem refKeys_partition (L : Nat) (w : List (Attr × Int)) (f : Int → Int) :
+    sumInts ((refKeys L w).map fun k => sumInts ((under L w k).map f)) = sumInts (w.map fun m => f m.2) := by
+  have := partition_sum f (relabel L w)
+  rw [relabel_values] at this
+  exact this
+
+theorem bucketCounts_getD (b : List Int) (xs : List Int) (i : Nat) (hi : i < b.length + 1) :
+    (bucketCounts b xs).getD i 0 = (xs.filter fun x => searchIdx b x == i).length := by
+  simp [bucketCounts, List.getD_eq_getElem?_getD, List.getElem?_map, List.getElem?_range hi]
+
+/-- the reference itself satisfies every named predicate -/
+theorem perKeyOK_refPoints (g : Agg) (L : Nat) (w : List (Attr × Int)) : perKeyOK g L w (refPoints g L w) = true := by
+  simp [perKeyOK, refPoints]
+
+theorem psumDeltaOK_ref (L : Nat) (pw w : List (Attr × Int)) : psumDeltaOK L pw w (refPointsDelta L pw w) = true := by
+  simp [psumDeltaOK, refPointsDelta]
+
+theorem psumDeltaConserved_ref (L : Nat) (pw w : List (Attr × Int)) :
+    psumDeltaConserved L pw w (refPointsDelta L pw w) = true := by
+  simp only [psumDeltaConserved, refPointsDelta, total, List.map_map, Function.comp_def, pvTotal, beq_iff_eq]
+  rw [sumInts_map_sub]
+  have := refKeys_partition L w id
+  simp only [List.map_id, id_eq] at this
+  rw [this]
+
+theorem bucketsConserved_ref (g : Agg) (L : Nat) (w : List (Attr × Int)) :
+    bucketsConserved g w (refPoints g L w) = true := by
+  cases g with
+  | hist h =>
+    simp only [bucketsConserved, List.all_eq_true, List.mem_range, beq_iff_eq]
+    intro i hi
+    simp only [refPoints, payload, List.map_map, Function.comp_def, pvBucket, bucketCounts_getD _ _ i hi,
+      length_filter_eq_sum]
+    exact refKeys_partition L w fun x => if searchIdx h.bounds x == i then 1 else 0
+  | expo h =>
+    simp only [bucketsConserved, List.all_eq_true, List.mem_range, beq_iff_eq]
+    intro i hi
+    simp only [refPoints, payload, List.map_map, Function.comp_def, pvBucket, bucketCounts_getD _ _ i hi,
+      length_filter_eq_sum]
+    exact refKeys_partition L w fun x => if searchIdx h.bounds x == i then 1 else 0
+  | sum s => rfl
+  | psum s => rfl
+  | lv s => rfl
+  | plv s => rfl
+
+
+/-! ## precomputed sum, delta temporality: observed minus previously observed -/
+
+theorem map_eq_keys_map_keyed {V W : Type} (m : AMap V) (h : m.keys.Nodup) (f : Attr → V → W) (d : Attr → W) :
+    m.map (fun kv => (kv.1, f kv.1 kv.2)) = m.keys.map fun k => (k, ((m.get? k).map (f k)).getD (d k)) := by
+  simp only [AMap.keys, List.map_map]
+  apply List.map_congr_left
+  intro kv hkv
+  obtain ⟨k, v⟩ := kv
+  simp [Function.comp, get?_of_mem_nodup m h k v hkv]
+
+theorem get?_map_vals {V W : Type} (m : AMap V) (f : V → W) (k : Attr) :
+    (AMap.get? (m.map fun kv => (kv.1, f kv.2)) k) = (m.get? k).map f := by
+  induction m with
+  | nil => rfl
+  | cons kv m ih =>
+    obtain ⟨k', w⟩ := kv
+    by_cases h : k' = k <;> simp [AMap.get?, h, ih]
+
+/-- the invariant of a delta run of a precomputed sum: the run invariant, and `reported` holds what the preceding
+cycle observed under each reported set -/
+structure PInv (s : PSum) (pw w : List (Attr × Int)) : Prop where
+  run : RunInv (.psum s) w
+  rep : ∀ k, (s.reported.get? k).getD 0 = sumInts (under s.limit pw k)
+
+theorem PInv.report (s : PSum) (pw w : List (Attr × Int)) (h : PInv s pw w) (t : Nat) :
+    ((Agg.psum s).collect .delta t).2 = refPointsDelta s.limit pw w := by
+  have hk : s.values.keys = refKeys s.limit w := by
+    have := h.run.keys; simp only [Agg.keys, Agg.limit] at this; rw [this, runKeys_nil_eq_refKeys]
+  have hnd : s.values.keys.Nodup := by rw [hk]; exact refKeys_nodup _ _
+  simp only [Agg.collect, PSum.collect, PSum.delta, mkPoints, List.map_map, Function.comp_def]
+  rw [map_eq_keys_map_keyed s.values hnd (fun k v => PV.num (v.n - (s.reported.get? k).getD 0)) (fun _ => PV.num 0),
+    refPointsDelta, ← hk]
+  apply List.map_congr_left
+  intro k hkm
+  obtain ⟨v, hv⟩ := get?_isSome_of_mem_keys _ k hkm
+  have hc := h.run.cells k
+  rw [tl_eq_relabel] at hc
+  simp only [Agg.payloadAt, Agg.limit, hv, Option.map_some, optPayload] at hc
+  by_cases he : (valsAt (relabel s.limit w) k).isEmpty = true
+  · simp [he] at hc
+  · simp only [he, payload, Option.some.injEq, PV.num.injEq, if_false, Bool.false_eq_true] at hc
+    simp only [hv, Option.map_some, Option.getD_some, h.rep k, under_eq_valsAt, hc]
+
+theorem PInv.measure (s : PSum) (pw w : List (Attr × Int)) (h : PInv s pw w) (a : Attr) (x : Int) :
+    PInv (s.measure a x) pw (w ++ [(a, x)]) :=
+  ⟨h.run.measure _ w a x, h.rep⟩
+
+theorem PInv.collect (s : PSum) (pw w : List (Attr × Int)) (h : PInv s pw w) (t : Nat) :
+    PInv (s.delta t).1 w [] := by
+  refine ⟨?_, ?_⟩
+  · have := h.run.collect _ w .delta t
+    simpa [Agg.collect, PSum.collect, Agg.resets] using this
+  · intro k
+    have hc := h.run.cells k
+    rw [tl_eq_relabel] at hc
+    simp only [Agg.payloadAt, Agg.limit, optPayload] at hc
+    simp only [PSum.delta, get?_map_vals, under_eq_valsAt]
+    by_cases he : (valsAt (relabel s.limit w) k).isEmpty = true
+    · simp only [he, if_true] at hc
+      cases hv : s.values.get? k with
+      | none => simp only [List.isEmpty_iff] at he; simp [he]
+      | some v => rw [hv] at hc; simp at hc
+    · simp only [he, if_false, Bool.false_eq_true] at hc
+      cases hv : s.values.get? k with
+      | none => rw [hv] at hc; simp at hc
+      | some v =>
+        rw [hv] at hc
+        simp only [payload, Option.map_some, Option.some.injEq, PV.num.injEq] at hc
+        simp [hc]
+
+theorem runSteps_psum_delta (steps : List AStep) (s : PSum) (pw w : List (Attr × Int)) (h : PInv s pw w) :
+    ((Agg.psum s).runSteps .delta steps).2 =
+      (windowsPrev pw w steps).map fun p => refPointsDelta s.limit p.1 p.2 := by
+  induction steps generalizing s pw w with
+  | nil => rfl
+  | cons st r ih =>
+    cases st with
+    | meas a x =>
+      simp only [Agg.runSteps, windowsPrev, Agg.measure]
+      exact ih (s.measure a x) pw _ (h.measure s pw w a x)
+    | col t =>
+      simp only [Agg.runSteps, windowsPrev, List.map_cons]
+      rw [h.report s pw w t]
+      have := ih (s.delta t).1 w [] (h.collect s pw w t)
+      simp only [Agg.collect, PSum.collect] at this ⊢
+      rw [this]
+      rfl
+
+theorem PInv.fresh (s : PSum) (hv : s.values = []) (hr : s.reported = []) : PInv s [] [] := by
+  refine ⟨RunInv.fresh _ (by simp [Agg.keys, AMap.keys, hv]), ?_⟩
+  intro k; simp [hr, AMap.get?, under, relabel]
+
+theorem windowsPrev_snd (pw w : List (Attr × Int)) (steps : List AStep) :
+    (windowsPrev pw w steps).map (·.2) = windows true w steps := by
+  induction steps generalizing pw w with
+  | nil => rfl
+  | cons st r ih => cases st <;> simp [windowsPrev, windows, ih]
+
+/-! ## every pipeline the model builds lists each stream at most once per instrument -/
+
+theorem insertInstrument_nodup (L : Nat) (views : List View) (j : Nat) (i : Inst) (S : List StreamSt) :
+    (insertInstrument L views j i S).2.Nodup := by
+  have hspec := resolveViews_spec L j i views S [] false
+  simp only [insertInstrument]
+  by_cases hmt : (resolveViews L j i views S [] false).2.2 = true
+  · simp only [hmt, if_true]; exact hspec.nodup List.nodup_nil
+  · have hmt' : (resolveViews L j i views S [] false).2.2 = false := by simpa using hmt
+    simp only [hmt', (hspec.unmatched hmt').2]
+    cases (cachedAggregator L (resolveViews L j i views S [] false).1 i (Name.inst j) none none).2 <;> simp
+
+theorem create_meas_nodup (L : Nat) (views : List View) (insts : List Inst) (p : Pipe) (j0 : Nat)
+    (hp : ∀ m ∈ p.meas, m.Nodup) : ∀ m ∈ (Pipe.create L views p insts j0).meas, m.Nodup := by
+  induction insts generalizing p j0 with
+  | nil => simpa [Pipe.create] using hp
+  | cons i is ih =>
+    simp only [Pipe.create]
+    apply ih
+    intro m hm
+    rcases List.mem_append.mp hm with h | h
+    · exact hp m h
+    · simp at h; subst h; exact insertInstrument_nodup L views j0 i p.streams
+
+
+theorem allZip_map {α β : Type} (p : α → β → Bool) (f : α → β) (l : List α) (h : ∀ a, p a (f a) = true) :
+    allZip p l (l.map f) = true := by
+  induction l with
+  | nil => rfl
+  | cons a l ih => simp [allZip, h a, ih]
 
 end Otel.C12
